@@ -180,6 +180,29 @@ def imageLine (line : String) : IO String := do
             | .ok mem =>
             pure s!"ok pre_meta_events={st.preMetaEvents} ln_writes={st.lnWrites} bbn_writes={st.bbnWrites} to_free_pages={st.toFreePages} beyond_frontier={st.beyondFrontier} meta_write_seen={st.sawMeta} order_effects={o.effects} order_fsyncs={o.fsyncs} durable_at_switch={o.durableAtSwitch} overlapped={o.overlapped} ht_writes={o.htWrites} post_prunes={o.postPrunes} left_volatile={o.pend.length} switch_durable={if o.phase == 2 then 1 else 0} {mem}"
         | .error e => pure s!"bad placement: {e}"
+  -- C17 / C04 (content level): `placement-oldmeta <dir>` — `<dir>` holds the `ln` / `bbn` files as they are AFTER an operation,
+  -- the `meta` page as it was BEFORE it and `expected.txt` = the committed map before it.  The beatree part of the image
+  -- must be well-formed under the OLD manifest and abstract to the OLD state: no page the previous state reads (node,
+  -- overflow page, free-list page — `Store/Frame*.lean`) was touched.  The hash table is rewritten in place after the
+  -- switch-over, so the table / Merkle checks are not part of this monitor.
+  | ["placement-oldmeta", dir] =>
+    let d : System.FilePath := dir
+    let some metaF ← readOr (d / "meta") | return "bad oldmeta: io: cannot read meta"
+    let some ln ← readOr (d / "ln") | return "bad oldmeta: io: cannot read ln"
+    let some bbn ← readOr (d / "bbn") | return "bad oldmeta: io: cannot read bbn"
+    let some eb ← readOr (d / "expected.txt") | return "bad oldmeta: io: cannot read the expected-state file"
+    let img : Image := { metaF := metaF, ln := ln, bbn := bbn, ht := ByteArray.empty, wal := ByteArray.empty, segs := [] }
+    match String.fromUTF8? eb with
+    | none => pure "bad oldmeta: expected-state file: not utf-8"
+    | some s =>
+      match (do
+        let expected ← parseExpected s
+        let st ← wfImage img
+        let kvs ← absImage img
+        compareState kvs expected
+        pure st : Except String Stats) with
+      | .ok st => pure s!"ok old_keys={st.keys} old_leaves={st.leaves} old_branches={st.branches} old_overflow_pages={st.overflowPages} old_ln_free={st.lnFree} old_bbn_free={st.bbnFree}"
+      | .error e => pure s!"bad oldmeta: the files after the operation no longer decode to the previous state under the previous meta page: {e}"
   -- C04 / C03: `recovery <trace-file>` — the Begin / End events `Nomt::open` issued while recovering a crashed directory
   | ["recovery", f] =>
     let some tb ← readOr f | return "bad io: cannot read the recovery trace"
